@@ -486,37 +486,53 @@ def run_case(case):
                             newreg[i] = [0, 0]
                             continue
                         val, known = rows[a]
-                        for (wi, wd, wa, bm, wdata) in writes:
+                        patched = opaque = 0
+                        for (wi, wd, wa, bm, wdata) in writes:          # (in the order of the write ports)
                             if wa != a or not bm:
                                 continue
                             if wd != reff[i][0]:
                                 known &= ~bm            # write from another clock in the same instant: undefined
                                 P["cross_domain_collision"] += 1
                             elif wi in rp["transparent_for"]:
+                                # "captured with the new data": what the row holds after the edge - when two ports of the
+                                # transparency set write the same granule, that is the later port's data, in whatever order the
+                                # set was given
+                                if patched & bm:
+                                    P["two_transparent_ports_one_granule"] = P.get("two_transparent_ports_one_granule", 0) + 1
                                 val = (val & ~bm) | (wdata & bm)
                                 known |= bm
+                                patched |= bm
                                 P["transparent_patch"] += 1
                             else:
+                                opaque |= bm
                                 P["nontransparent_collision"] += 1
-                        # two transparent ports patching the same bits: undefined
-                        seen = 0
-                        for (wi, wd, wa, bm, wdata) in writes:
-                            if wa == a and wd == reff[i][0] and wi in rp["transparent_for"]:
-                                known &= ~(seen & bm)
-                                seen |= bm
+                        # a granule written both by a port of the transparency set and by one outside it: not judged
+                        known &= ~(patched & opaque)
                         newreg[i] = [val & full, known & full]
                     # commit writes
                     touched = {}
-                    for (wi, wd, wa, bm, wdata) in writes:
+                    for (wi, wd, wa, bm, wdata) in writes:          # (in the order of the write ports: the later port wins)
                         val, known = rows[wa]
-                        prev = touched.get(wa, 0)
-                        if prev & bm:
-                            P["two_port_conflict"] += 1
+                        by_dom = touched.setdefault(wa, {})
+                        other = 0
+                        for d_, bits_ in by_dom.items():
+                            if d_ != wd:
+                                other |= bits_
+                            elif bits_ & bm:
+                                P["two_port_conflict"] += 1
                         val = (val & ~bm) | (wdata & bm)
-                        known = (known | bm) & ~(prev & bm)
+                        # written from two clocks in one instant: either value (the emitted RTLIL gives no priority across clocks)
+                        known = (known | bm) & ~(other & bm)
                         rows[wa] = [val & full, known & full]
-                        touched[wa] = prev | bm
-                    # bits written twice stay unknown even if the second write re-marked them
+                        by_dom[wd] = by_dom.get(wd, 0) | bm
+                    for wa, by_dom in touched.items():
+                        # ... and they stay unknown even if a later write of the first clock re-marked them
+                        doms_ = list(by_dom.items())
+                        for x_ in range(len(doms_)):
+                            for y_ in range(x_ + 1, len(doms_)):
+                                both = doms_[x_][1] & doms_[y_][1]
+                                if both:
+                                    rows[wa][1] &= ~both
                     for i, v in newreg.items():
                         rreg[i] = v
             obs = compare(idx)
